@@ -134,25 +134,27 @@ func (v *VerifSession) MessageEventChan() chan bool { return v.s.messageEvent }
 
 // VerifSnapshot is a read-only view of the session state.
 type VerifSnapshot struct {
-	State        string
-	Stash        []int
-	StashTypes   []string
-	StashNewSeq  []int // NewSeqNo (36) of each kept message, 0 when absent
-	ResendEnd    int
-	CurResendEnd int
-	SentReset    bool
-	ToSend       int
-	PendingStop  bool
-	Stopped      bool
-	OutNil       bool
-	InNil        bool
-	LoggedOn     bool
-	Connected    bool
-	SessionTime  bool
-	MsgEvent     int
-	HeartBtInt   time.Duration
-	HBDue        bool
-	ResetChecked time.Time // lastCheckedResetSeqTime
+	State           string
+	Stash           []int
+	StashTypes      []string
+	StashNewSeq     []int // NewSeqNo (36) of each kept message, 0 when absent
+	ResendEnd       int
+	CurResendEnd    int
+	SentReset       bool
+	ToSend          int
+	PendingStop     bool
+	Stopped         bool
+	OutNil          bool
+	InNil           bool
+	LoggedOn        bool
+	Connected       bool
+	SessionTime     bool
+	MsgEvent        int
+	HeartBtInt      time.Duration
+	HBDue           bool
+	ResetChecked    time.Time // lastCheckedResetSeqTime
+	Queued          [][]byte  // copies of the messages waiting in toSend
+	TargetApplVerID string    // targetDefaultApplVerID
 }
 
 func verifStateString(st sessionState) string {
@@ -192,17 +194,21 @@ func verifResend(st sessionState) (resendState, bool) {
 func (v *VerifSession) Snapshot() VerifSnapshot {
 	s := v.s
 	sn := VerifSnapshot{
-		State:        verifStateString(s.State),
-		SentReset:    s.sentReset,
-		ToSend:       len(s.toSend),
-		PendingStop:  s.pendingStop,
-		Stopped:      s.stopped,
-		OutNil:       s.messageOut == nil,
-		InNil:        s.messageIn == nil,
-		MsgEvent:     len(s.messageEvent),
-		HeartBtInt:   s.HeartBtInt,
-		HBDue:        s.heartbeatDue,
-		ResetChecked: s.lastCheckedResetSeqTime,
+		State:           verifStateString(s.State),
+		SentReset:       s.sentReset,
+		ToSend:          len(s.toSend),
+		PendingStop:     s.pendingStop,
+		Stopped:         s.stopped,
+		OutNil:          s.messageOut == nil,
+		InNil:           s.messageIn == nil,
+		MsgEvent:        len(s.messageEvent),
+		HeartBtInt:      s.HeartBtInt,
+		HBDue:           s.heartbeatDue,
+		ResetChecked:    s.lastCheckedResetSeqTime,
+		TargetApplVerID: s.targetDefaultApplVerID,
+	}
+	for _, q := range s.toSend {
+		sn.Queued = append(sn.Queued, append([]byte{}, q...))
 	}
 	if s.State != nil {
 		sn.LoggedOn = s.State.IsLoggedOn()
